@@ -513,6 +513,81 @@ pub fn enumerate_inputs(ctx: &Ctx, visit: Visit, shrink: usize) {
     if let Some(s) = seeds.get(3) {
         ctx.sample(json!({"kind": "parse", "msg": hex(&s[..s.len() - 3]), "note": "seed message truncated by 3"}));
     }
+    // two bytes at once: for the base record of every type (followed by another record), every
+    // pair of positions in RDLENGTH + RDATA set to every pair of values that are small, extreme,
+    // or equal (give or take 2) to the number of bytes that follow the position: a selector
+    // field and a length octet that only misbehave together are met by some pair
+    if shrink == 0 {
+        let tail = rr("f0.example.com", typed(1, vec![schema::Val::U32(0x7f000001)]));
+        let mut bases: Vec<(Vec<u8>, usize, usize, usize)> = Vec::new();
+        for (sch, zeroed) in SCHEMAS.iter().flat_map(|s| [(s, false), (s, true)]) {
+            let mut p = RefPacket { id: 0x1112, flags: F_QR | F_AA, ..Default::default() };
+            let mut base = gen::base_rr(sch);
+            if zeroed {
+                // the same record with every integer field zero, so that a multi-byte selector
+                // needs only its low byte set
+                if let RefRData::Typed { vals, .. } = &mut base.rdata {
+                    for v in vals.iter_mut() {
+                        *v = match &*v {
+                            schema::Val::U8(_) => schema::Val::U8(0),
+                            schema::Val::U16(_) => schema::Val::U16(0),
+                            schema::Val::U24(_) => schema::Val::U24(0),
+                            schema::Val::U32(_) => schema::Val::U32(0),
+                            schema::Val::I32(_) => schema::Val::I32(0),
+                            schema::Val::U48(_) => schema::Val::U48(0),
+                            other => other.clone(),
+                        };
+                    }
+                }
+            }
+            p.answers.push(base);
+            p.additional.push(tail.clone());
+            let m = p.encode(0);
+            if let Ok(w) = crate::refmodel::wire::walk(&m) {
+                if let Some(r0) = w.records.first() {
+                    // cap the region so that very long base values stay affordable
+                    let end = r0.rdata_end().min(r0.rdata_start + if shrink == 0 { 48 } else { 24 });
+                    bases.push((m.clone(), r0.rdata_start - 2, end, r0.rdata_end()));
+                }
+            }
+        }
+        let total = std::sync::atomic::AtomicU64::new(0);
+        par_shards(ctx, &bases, |(m, from, to, rdata_end), t: &mut Tally| {
+            let mut n = 0u64;
+            let mut x = m.clone();
+            let values = |pos: usize| -> Vec<u8> {
+                let rest = rdata_end.saturating_sub(pos + 1) as i64; // bytes of the RDATA after this position
+                let mut v: Vec<u8> = vec![0, 1, 2, 3, 4, 5, 6, 7, 8, 9, 10, 16, 0x3f, 0x40, 0x7f, 0x80, 0xc0, 0xfe, 0xff];
+                for d in -2i64..=2 {
+                    let k = rest + d;
+                    if (0..=255).contains(&k) {
+                        v.push(k as u8);
+                    }
+                }
+                v.sort();
+                v.dedup();
+                v
+            };
+            for i in *from..*to {
+                let vi = values(i);
+                for j in (i + 1)..*to {
+                    let vj = values(j);
+                    for a in &vi {
+                        x[i] = *a;
+                        for b in &vj {
+                            x[j] = *b;
+                            n += 1;
+                            visit(&x, t);
+                        }
+                    }
+                    x[j] = m[j];
+                }
+                x[i] = m[i];
+            }
+            total.fetch_add(n, std::sync::atomic::Ordering::Relaxed);
+        });
+        ctx.space(&format!("byte pairs: {} base records (each type with its default field values and with every integer field zero) followed by another record; every pair of positions in RDLENGTH + the first 48 RDATA bytes x every pair of values over {{0..=10, 16, 3f, 40, 7f, 80, c0, fe, ff, the number of bytes that follow the position -2..=+2}}", bases.len()), total.load(std::sync::atomic::Ordering::Relaxed), "complete");
+    }
     // pointer graphs as question names (cells), pointer targets in message coordinates
     {
         let k = ctx.tier.pick(5usize, 6usize);
@@ -597,6 +672,11 @@ pub fn enumerate_inputs(ctx: &Ctx, visit: Visit, shrink: usize) {
         par_shards(ctx, &chunks, |ws, t: &mut Tally| {
             let mut n = 0u64;
             for &w in ws.iter() {
+                // (the properties that reuse these inputs at a lower bound take the words that
+                // differ from a plain query / response in the RCODE nibble only)
+                if shrink > 0 && w & 0x7ff0 != 0 {
+                    continue;
+                }
                 // the full byte range for words with the reserved bit clear, boundary bytes otherwise
                 let full = w & 0x0040 == 0;
                 for ext in 0..=255u16 {
@@ -697,6 +777,7 @@ pub fn enumerate_inputs(ctx: &Ctx, visit: Visit, shrink: usize) {
     // R7: names that take many decoding steps, and reference encodings of the full size sweep
     {
         let mut msgs = gen::name_shape_messages(if shrink == 0 { 700 } else { 300 });
+        msgs.extend(gen::large_messages());
         for p in gen::size_sweep_packets() {
             msgs.push(p.encode(0));
             msgs.push(p.encode_compressed(0, true));
